@@ -128,9 +128,8 @@ found:
 	i.LastRecord = r.Start()
 	eiv := r.End() / TileWidth
 	if eiv == len(ref.Intervals) {
-		if eiv > biv {
-			panic("index: unexpected alignment length")
-		}
+		// The record may start in an earlier tile: it is
+		// still the first one to reach this tile.
 		ref.Intervals = append(ref.Intervals, c.Begin)
 	} else if eiv > len(ref.Intervals) {
 		intvs := make([]bgzf.Offset, eiv)
